@@ -60,6 +60,19 @@ theorem mt_safe {n : Nat} {s : St} (h : Reach n s) :
     refine ⟨?_, a3, a2⟩
     rw [← inv.cnt b blk a4]; exact a5
 
+/-- the counter equation with the in-flight references made explicit, for the slot layout of the
+    drivers (16 variables, then two scratch slots per thread): counter = handles in variables +
+    references held in scratch slots (an increment already performed whose pointer is not yet stored
+    in its destination, or a named temporary of the running call) -/
+theorem mt_ref_inflight {s : St} (h : Reach nSlots s) (b : Nat) (blk : Block) (hb : s.heap b = some blk) :
+    blk.ref = handlesOf nVars s.slots b
+      + (List.range' nVars (2 * nThreads)).countP (fun v => s.slots v == Handle.blk b) := by
+  have hc := (inv_reach h).cnt b blk hb
+  have hn := reach_n h
+  have split : List.range nSlots = List.range nVars ++ List.range' nVars (2 * nThreads) := by decide
+  simp only [handles, handlesOf, hn, split, List.countP_append] at hc
+  simpa [handlesOf] using hc
+
 /-- the NEXT step of any thread from any reachable state is safe as well: it does not touch a
     released block, release twice, or write in place a block that has another handle -/
 theorem mt_step_safe {n : Nat} {s s' : St} {tid : Nat} {a : Act} (h : Reach n s)
